@@ -167,6 +167,16 @@ async fn vx_bounded_log_single_file() {
             }
         }
     }
+    // ---- cuts that pop SEVERAL sparse index entries at once, with block sizes for which the SUM of the popped file-offset deltas
+    //      needs a wider varint than each delta alone (128 x ~104 bytes < 16384 <= 2 blocks; 128 x ~20 bytes: 7 blocks)
+    let mid_long: Vec<usize> = (0..420).map(|i| 96 + (i * 5) % 9).collect();
+    for (cut_back, aname, again) in [(150u64, "tiny", vec![1usize, 2, 3]), (220, "ten-short", (0..10).map(|i| 40 + i).collect::<Vec<usize>>()), (300, "many-small", (0..150).map(|i| 5 + i % 9).collect())] {
+        history(&format!("profile=mid-long start=1 cut_back={} again={}", cut_back, aname), 1, &mid_long, cut_back, &again, &mut bad).await;
+        n += 1;
+    }
+    let small_long: Vec<usize> = (0..1300).map(|i| 8 + (i * 7) % 11).collect();
+    history("profile=small-long start=1000 cut_back=1100 again=ten-short", 1000, &small_long, 1100, &(0..10).map(|i| 40 + i).collect::<Vec<usize>>(), &mut bad).await;
+    n += 1;
     // ---- exactly k x 128 records at a reopen (the last index entry points at the end of the log: the end-of-log scan passes no record)
     for k in [128usize, 256] {
         let exact: Vec<usize> = (0..k).map(|i| 3 + i % 5).collect();
@@ -190,7 +200,7 @@ async fn vx_bounded_log_single_file() {
     }
     boundary_history("boundary lead=5 big=250000", 5, 250000, -5000, &mut bad).await;
     n += 1;
-    assert!(n >= 74, "only {} histories", n);
+    assert!(n >= 78, "only {} histories", n);
     bad.sort(); bad.dedup();
     println!("VX-BOUNDED single-file histories: {} in {:?}", n, t0.elapsed());
     assert!(bad.is_empty(), "{} failing probe(s):\n{}", bad.len(), bad.join("\n"));
